@@ -572,7 +572,7 @@ def c06_worker(job: dict) -> list:
 # C20  Options.tla (option sources) and CliPair.tla (header/source pair)
 # ===========================================================================
 
-OPT_ORDER = ["scalar_type", "sum_factorization", "table_rtol", "part", "language"]
+OPT_ORDER = ["scalar_type", "sum_factorization", "table_rtol", "table_atol", "epsilon", "verbosity", "part", "language"]
 OPT_THEOREMS = ["TypeOK", "NothingSetGivesDefault", "CliWins", "PwdBeatsUser"]
 
 # tensor-product P2 mass form on a quadrilateral: every modelled option has a visible effect on it
@@ -637,26 +637,90 @@ def opt_configs(assign: dict, n: int, rng: random.Random) -> list[dict]:
     return [{o: cols[o][i] for o in OPT_ORDER} for i in range(n)]
 
 
+NUMERIC = {"table_rtol": float, "table_atol": float, "epsilon": float, "verbosity": int}
+# tokens Options.tla uses for numeric values (defaults included)
+NUM_TOKENS = {"table_rtol": ["0", "0.001", "1e-06"], "table_atol": ["0", "0.3", "1e-09"],
+              "epsilon": ["0", "1e-07", "1e-14"], "verbosity": ["0", "40", "30"]}
+
+
 def _json_value(o: str, v: str):
     if o == "sum_factorization":
         return v == "true"
-    if o == "table_rtol":
-        return float(v)
+    if o in NUMERIC:
+        return NUMERIC[o](v)
     return v
-
-
-RTOL_TOKENS = ["1e-06", "0.001", "1e-05"]
 
 
 def _token(o: str, v) -> str:
     if o == "sum_factorization":
         return {True: "true", False: "false"}.get(v, repr(v)) if isinstance(v, bool) else repr(v)
-    if o == "table_rtol":
-        for t in RTOL_TOKENS:
-            if isinstance(v, (int, float)) and float(t) == float(v):
-                return t
+    if o in NUMERIC:
+        if isinstance(v, (int, float)) and not isinstance(v, bool):
+            for t in NUM_TOKENS[o]:
+                if float(t) == float(v):
+                    return t
         return repr(v)
     return v if isinstance(v, str) else repr(v)
+
+
+# first entry of the P2 (GLL) tensor-product mass matrix on the unit square: (2/15)^2, times k = 1
+TINY_A00 = 4.0 / 225.0
+
+
+_NUMBA_CALL = r"""
+import ctypes, re, sys
+import numpy as np
+src = open(sys.argv[1]).read()
+ns = {}
+exec(compile(src, sys.argv[1], "exec"), ns)
+name = re.search(r"^def (tabulate_tensor_integral_\w+)\(", src, re.M).group(1)
+dt = {"float32": np.float32, "float64": np.float64}[sys.argv[2]]
+ct = ctypes.c_float if dt == np.float32 else ctypes.c_double
+A = np.zeros(128, dtype=dt); c = np.ones(4, dtype=dt); w = np.zeros(4, dtype=dt)
+x = np.array([[0, 0, 0], [1, 0, 0], [0, 1, 0], [1, 1, 0]], dtype=dt).ravel()
+e = np.zeros(4, dtype=np.int32); q = np.zeros(4, dtype=np.uint8)
+P = lambda a, t: a.ctypes.data_as(ctypes.POINTER(t))
+ns[name](P(A, ct), P(w, ct), P(c, ct), P(x, ct), P(e, ctypes.c_int), P(q, ctypes.c_uint8), None)
+print("A0", repr(float(A[0])))
+"""
+
+
+def tensor_witness_numba(cwd: Path, styp: str) -> str:
+    """The numba output executed as plain Python (numba.carray works on ctypes pointers uncompiled)."""
+    if styp not in ("float32", "float64"):
+        return "n/a"
+    p = subprocess.run([common.PY, "-c", _NUMBA_CALL, "tiny_numba.py", styp], cwd=str(cwd), env=common.child_env(),
+                       capture_output=True, text=True, timeout=600)
+    m = re.search(r"^A0 (\S+)$", p.stdout, re.M)
+    if p.returncode != 0 or not m:
+        return "does not run"
+    return "exact" if abs(float(m.group(1)) / TINY_A00 - 1.0) <= 1e-3 else "clamped"
+
+
+def tensor_witness(cwd: Path, src: str, styp: str) -> str:
+    """Compile tiny.c stand-alone, call the one kernel on the reference square: "exact" if A[0] is the mass
+    matrix entry (to 1e-3, which covers float32 and table_rtol = 1e-3), "clamped" otherwise (table_atol = 0.3
+    moves it by 30 %).  A[0] is the (0,0) entry for part = full and for part = diagonal alike."""
+    import ctypes
+
+    import numpy as np
+    m = re.search(r"void (tabulate_tensor_integral_\w+)\(", src)
+    dt = {"float32": np.float32, "float64": np.float64}.get(styp)
+    if not m or dt is None:
+        return "n/a"
+    so = cwd / "libtiny.so"
+    cc = subprocess.run(["gcc", "-std=c17", "-fPIC", "-O0", "-shared", f"-I{common.REPO / 'ffcx' / 'codegeneration'}",
+                         "tiny.c", "-o", str(so), "-lm"], cwd=str(cwd), capture_output=True, text=True)
+    if cc.returncode != 0:
+        return "does not compile"
+    f = ctypes.CDLL(str(so))[m.group(1)]
+    f.restype = None
+    A = np.zeros(128, dtype=dt)
+    c = np.ones(4, dtype=dt)
+    x = np.array([[0, 0, 0], [1, 0, 0], [0, 1, 0], [1, 1, 0]], dtype=dt).ravel()
+    vp = ctypes.c_void_p
+    f(A.ctypes.data_as(vp), None, c.ctypes.data_as(vp), x.ctypes.data_as(vp), None, None, None)
+    return "exact" if abs(float(A[0]) / TINY_A00 - 1.0) <= 1e-3 else "clamped"
 
 
 def parse_banner(text: str) -> dict | None:
@@ -720,6 +784,9 @@ def run_option_case(case: dict, root: Path) -> dict:
     obs["behaviour"].update(language=lang, scalar_type=styp,
                             sum_factorization="true" if re.search(r"\biq0\b", src) else "false",
                             part={"1": "diagonal", "2": "full"}.get(m.group(1), "?") if m else "?")
+    if obs["behaviour"]["sum_factorization"] == "false":
+        # (with tensor-factor tables the clamping of table_atol is not visible: no witness)
+        obs["behaviour"]["table_atol"] = tensor_witness(cwd, src, styp) if lang == "C" else tensor_witness_numba(cwd, styp)
     b = parse_banner(btxt)
     if b is not None:
         obs["banner"] = {o: _token(o, b.get(o, "missing")) for o in OPT_ORDER}
@@ -752,7 +819,7 @@ def opt_judge(cases: list[dict]):
     return verdict, r
 
 
-def c20_options(chk, rng: random.Random, n: int, configs: list[dict] | None = None):
+def c20_options(chk, rng: random.Random, n: int, configs: list[dict] | None = None, controls: bool = True):
     if configs is None:
         configs = opt_configs(opt_assignments(), n, rng)
     cases = [{"id": i, "cfg": c} for i, c in enumerate(configs)]
@@ -762,7 +829,13 @@ def c20_options(chk, rng: random.Random, n: int, configs: list[dict] | None = No
         for c, o in zip(cases, ex.map(lambda c: run_option_case(c, root), cases)):
             c["obs"] = o
     t1 = time.time()
-    verdict, r = opt_judge(cases)
+    # negative controls ride in the same TLC run (one JVM start): corrupted copies of some cases, ids >= 10^6
+    muts = _option_mutants(cases, rng) if controls else []
+    verdict, r = opt_judge(cases + muts)
+    bad = [m for m in muts if not verdict[m["base"]] and not verdict[m["id"]]]
+    if bad:
+        raise MachineryError("negative control: OptionsJudge accepted a corrupted observation")
+    chk.add(controls_rejected=sum(1 for m in muts if not verdict[m["base"]]))
     chk.add(states=r.distinct, transitions=r.generated, traces_validated_against_impl=len(cases),
             evaluations=len(cases) * len(OPT_ORDER))
     chk.note(f"{len(cases)} option-source configurations run through `python -m ffcx` in {t1 - t0:.1f}s, "
@@ -781,25 +854,20 @@ def c20_options(chk, rng: random.Random, n: int, configs: list[dict] | None = No
     return cases, verdict
 
 
-def c20_option_controls(cases, verdict, rng) -> int:
+def _option_mutants(cases, rng) -> list[dict]:
     """Corrupt one recorded value -> TLC must reject."""
-    good = [c for c in cases if not verdict[c["id"]]]
-    rng.shuffle(good)
+    pool = [c for c in cases if c["obs"]["generated"]]
+    rng.shuffle(pool)
     mut = []
-    for c in good[:10]:
+    for c in pool[:10]:
         o = rng.choice(OPT_ORDER)
         c2 = json.loads(json.dumps(c))
         c2["obs"]["banner"][o] = "corrupted"
-        mut.append(dict(c2, id=len(mut)))
+        mut.append(dict(c2, id=10 ** 6 + len(mut), base=c["id"]))
         c3 = json.loads(json.dumps(c))
         c3["obs"]["behaviour"]["language"] = "numba" if c3["obs"]["behaviour"]["language"] == "C" else "C"
-        mut.append(dict(c3, id=len(mut)))
-    if not mut:
-        return 0
-    v, _ = opt_judge(mut)
-    if any(not v[m["id"]] for m in mut):
-        raise MachineryError("negative control: OptionsJudge accepted a corrupted observation")
-    return len(mut)
+        mut.append(dict(c3, id=10 ** 6 + len(mut), base=c["id"]))
+    return mut
 
 
 # ---------------------------------------------------------------------------
@@ -876,7 +944,7 @@ F = inner(f, v) * dx + inner(avg(f), avg(v)) * dS
 }
 
 
-def pair_corpus(tier: str, rng: random.Random) -> list[dict]:
+def pair_corpus(tier: str, rng: random.Random, invocations: list[dict]) -> list[dict]:
     demos = sorted(p for p in (common.REPO / "demo").glob("*.py")
                    if p.name != "test_demos.py" and not p.stem.endswith("_numba"))
     if not demos:
@@ -894,15 +962,28 @@ def pair_corpus(tier: str, rng: random.Random) -> list[dict]:
     gen = list(GENERATED_UFL)
     if tier == "quick":
         # (HyperElasticity alone costs as much as the rest of the quick tier: thorough only)
-        pick = rng.sample([p for p in demos if p.stem != "HyperElasticity"], 3)
+        pick = rng.sample([p for p in demos if p.stem != "HyperElasticity"], 2)
         jobs += [{"path": str(p), "scalar_type": stype(p)} for p in pick]
         jobs += [{"generated": g, "scalar_type": "float64"} for g in gen]
+        # cheap repeats so that the quick tier runs every invocation variant at least once
+        small = ["expr_only.py", "caf\u00e9 - 2nd.order.py", "3d.prism-mesh.py"]
+        k = 0
+        while len(jobs) < len(invocations):
+            jobs.append({"generated": small[k % len(small)], "scalar_type": ["float32", "complex128"][(k // len(small)) % 2]})
+            k += 1
     else:
         jobs += [{"path": str(p), "scalar_type": stype(p)} for p in demos]
         jobs += [{"path": str(p), "scalar_type": stype(p, True)} for p in demos]
         for g in gen:
             jobs += [{"generated": g, "scalar_type": t} for t in ("float64", "float32", "complex128")]
     # heavy files first so the pool drains evenly
+    # every job gets one of the TLC-emitted invocation variants (CliPair!Invocations), seed-shuffled, cycling
+    order: list = []
+    for j in jobs:
+        if not order:
+            order = list(invocations)
+            rng.shuffle(order)
+        j["inv"] = order.pop()
     jobs.sort(key=lambda j: 0 if "HyperElasticity" in j.get("path", "") else 1)
     for i, j in enumerate(jobs):
         j["id"] = i
@@ -930,11 +1011,20 @@ def pair_judge(cases: list[dict]):
     return verdict, r
 
 
-PAIR_FIELDS = ("id", "stem", "objects", "files", "generated", "compiles", "links", "cc_message", "declared",
+def pair_invocations() -> list[dict]:
+    d = tlc.stage("pair-emit", ["CliPair", "CliPairEmit"])
+    r = tlc.run(d, "CliPairEmit", cfg_text="", workers=1, timeout=300)
+    inv = [{k: v[1][k] for k in ("o", "n", "mode", "d")} for v in printed_values(r.out, ("INV",))]
+    if not inv:
+        raise MachineryError("CliPair.tla emitted no invocation variants:\n" + r.out[-1500:])
+    return inv
+
+
+PAIR_FIELDS = ("id", "stem", "inv", "objects", "files", "generated", "compiles", "links", "cc_message", "declared",
                "defined", "symbols", "aliases")
 
 
-def c20_pairs(chk, jobs: list[dict], name="c20-pair"):
+def c20_pairs(chk, jobs: list[dict], name="c20-pair", rng=None):
     t0 = time.time()
     res = run_workers("pairworker", jobs, name, extra={"generated_ufl": GENERATED_UFL})
     t1 = time.time()
@@ -945,7 +1035,11 @@ def c20_pairs(chk, jobs: list[dict], name="c20-pair"):
         if r is None or "error" in r:
             raise MachineryError(f"pair worker failed on {j}: {r and r.get('error')}")
         cases.append(r)
-    verdict, tr = pair_judge([{k: c[k] for k in PAIR_FIELDS} for c in cases])
+    muts = _pair_mutants(cases, rng) if rng is not None else []
+    verdict, tr = pair_judge([{k: c[k] for k in PAIR_FIELDS} for c in cases] + [{k: m[k] for k in PAIR_FIELDS} for m in muts])
+    if any(not verdict[m["base"]] and not verdict[m["id"]] for m in muts):
+        raise MachineryError("negative control: CliPairJudge accepted a corrupted case")
+    chk.add(controls_rejected=sum(1 for m in muts if not verdict[m["base"]]))
     nker = sum(c["kernels_compared"] for c in cases)
     chk.add(states=tr.distinct, transitions=tr.generated, traces_validated_against_impl=len(cases), evaluations=nker)
     nz = [(c["label"], a["symbol"], a["ulps"]) for c in cases for a in c["aliases"] if a["ulps"] > 0]
@@ -963,51 +1057,52 @@ def c20_pairs(chk, jobs: list[dict], name="c20-pair"):
     return cases, verdict
 
 
-def c20_pair_controls(cases, verdict, rng) -> int:
-    good = [c for c in cases if not verdict[c["id"]] and c["aliases"]]
-    rng.shuffle(good)
+def _pair_mutants(cases, rng) -> list[dict]:
+    pool = [c for c in cases if c["aliases"]]
+    rng.shuffle(pool)
     mut = []
-    for c in good[:4]:
+    for c in pool[:4]:
         base = {k: c[k] for k in PAIR_FIELDS}
         m1 = json.loads(json.dumps(base)); m1["declared"].append({"type": "ufcx_form", "name": "form_not_defined"})
         m2 = json.loads(json.dumps(base)); m2["aliases"][0]["targets"] = [99]
         m3 = json.loads(json.dumps(base)); m3["aliases"][0]["ulps"] = 10 ** 6
         m4 = json.loads(json.dumps(base)); m4["aliases"] = m4["aliases"][1:]
-        m5 = json.loads(json.dumps(base)); m5["stem"] = m5["stem"] + ["-", "x"]
-        for m in (m1, m2, m3, m4, m5):
-            m["id"] = len(mut)
+        m5 = json.loads(json.dumps(base))
+        if m5["inv"]["n"] and m5["inv"]["o"]:
+            m5["inv"]["o"] = ""      # then the files should have been named after the stem
+        else:
+            m5["stem"] = m5["stem"] + ["-", "x"]
+        m6 = json.loads(json.dumps(base)); m6["inv"]["n"] = "other_ns" if not m6["inv"]["n"] else ""
+        for m in (m1, m2, m3, m4, m5, m6):
+            m["id"] = 10 ** 6 + len(mut)
+            m["base"] = c["id"]
             mut.append(m)
-    if not mut:
-        return 0
-    v, _ = pair_judge(mut)
-    if any(not v[m["id"]] for m in mut):
-        raise MachineryError("negative control: CliPairJudge accepted a corrupted case")
-    return len(mut)
+    return mut
 
 
 def c20_run(chk):
     common.ensure_repo_on_path()
     rng = random.Random(chk.seed)
     quick = chk.tier == "quick"
-    opt_model_check(chk, 3 if quick else 5)
+    opt_model_check(chk, 2 if quick else 4)
     cases, verdict = c20_options(chk, rng, 30 if quick else 405)
-    nctl = c20_option_controls(cases, verdict, rng)
-    jobs = pair_corpus(chk.tier, rng)
-    pcases, pverdict = c20_pairs(chk, jobs)
-    nctl += c20_pair_controls(pcases, pverdict, rng)
+    invs = pair_invocations()
+    jobs = pair_corpus(chk.tier, rng, invs)
+    pcases, pverdict = c20_pairs(chk, jobs, rng=rng)
     distinct = len({json.dumps(c["cfg"], sort_keys=True) for c in cases
                     if sum(1 for o in OPT_ORDER for s in ("cli", "pwd", "user") if c["cfg"][o][s] != "unset") >= 2})
-    chk.add(distinct_nontrivial=distinct + len(pcases), controls_rejected=nctl,
+    chk.add(distinct_nontrivial=distinct + len(pcases),
             rule="option cases: one per configuration (per option and source: unset or a value), each option cycling "
                  "through all its TLC-emitted assignments in seed-shuffled order, run as a fresh `python -m ffcx` with "
                  "scratch $XDG_CONFIG_HOME and cwd; non-trivial = >=2 (option, source) pairs set. pair cases: one per "
-                 "(UFL file, scalar type): repo demos and generated files (several named/unnamed forms, expressions, "
-                 "odd stems, prism).",
+                 "(UFL file, scalar type, invocation variant of CliPair!Invocations: -o/-n/-d given or not, -i or "
+                 "positional): repo demos and generated files (several named/unnamed forms, expressions, odd stems, prism).",
             samples=[" ".join(c["obs"]["argv"]) + " | pwd=" + json.dumps({o: c["cfg"][o]["pwd"] for o in OPT_ORDER
                                                                          if c["cfg"][o]["pwd"] != "unset"})
                      for c in cases[:4]] + [c["label"] for c in pcases[:4]])
     chk.assumptions += [
-        "table_rtol has no behavioural witness on the probe form: judged from the banner only",
+        "table_rtol, epsilon, verbosity have no behavioural witness on the probe form: judged from the banner only; "
+        "table_atol: banner, and (unless sum factorization is in effect) the tensor of the compiled/executed kernel",
         "the banner of the generated file records the option values the compiler used (cross-checked behaviourally "
         "for scalar_type, sum_factorization, part, language)",
         "kernel comparison CLI vs JIT: same gcc, -O0 both; 'equal to rounding' = within CliPair!MaxUlps of the "
@@ -1021,7 +1116,8 @@ def c20_replay(chk, path):
     doc = json.loads(Path(path).read_text())
     pl = doc["payload"]
     if pl.get("kind") == "options":
-        c20_options(chk, random.Random(0), 1, configs=[pl["cfg"]])
+        cfg = {o: pl["cfg"].get(o, {"cli": "unset", "pwd": "unset", "user": "unset"}) for o in OPT_ORDER}
+        c20_options(chk, random.Random(0), 1, configs=[cfg], controls=False)
     else:
         job = dict(pl["job"], id=0)
         c20_pairs(chk, [job], "c20-replay")
@@ -1159,9 +1255,25 @@ def pair_case(job: dict, root: Path, generated_ufl: dict) -> dict:
     out = {"id": job["id"], "label": f"{fname}[{T}]", "stem": list(stem), "objects": [], "files": [],
            "generated": False, "compiles": False, "links": False, "cc_message": "", "declared": [], "defined": [],
            "symbols": [], "aliases": [], "kernels_compared": 0, "kernels_nonzero": 0}
-    before = set(os.listdir(d))
-    p = subprocess.run([common.PY, "-m", "ffcx", "--scalar_type", T, fname], cwd=str(d), capture_output=True, text=True)
-    out["files"] = sorted(set(os.listdir(d)) - before)
+    inv = job.get("inv") or {"o": "", "n": "", "mode": "pos", "d": ""}
+    out["inv"] = inv
+    out["label"] += "".join(f" -{k} {inv[k]}" for k in ("o", "n", "d") if inv[k]) + (" -i" if inv["mode"] == "i" else "")
+    argv = ["--scalar_type", T]
+    if inv["d"]:
+        (d / inv["d"]).mkdir()
+        argv += ["-d", inv["d"]]
+    if inv["o"]:
+        argv += ["-o", inv["o"]]
+    if inv["n"]:
+        argv += ["-n", inv["n"]]
+    argv += ["-i", fname] if inv["mode"] == "i" else [fname]
+
+    def listing():
+        return {str(Path(r, f).relative_to(d)) for r, _, fs in os.walk(d) for f in fs}
+
+    before = listing()
+    p = subprocess.run([common.PY, "-m", "ffcx", *argv], cwd=str(d), capture_output=True, text=True)
+    out["files"] = sorted(listing() - before)
     # the UFL objects, loaded the way the command line loads them (trusted: ufl.algorithms.load_ufl_file)
     ufd = ufl.algorithms.load_ufl_file(str(d / fname))
     forms, exprs = list(ufd.forms), list(ufd.expressions)
